@@ -18,6 +18,13 @@ check_C18() {
 check_C05() {
   build_inpkg c05_rotation_verif_test.go
   inpkg_test inpkg TestVerifC05
+  build_proxy
+  wire_part wire dialog
+}
+
+check_C04() {
+  build_proxy
+  wire_part wire dialog
 }
 
 check_C20() {
@@ -38,6 +45,8 @@ check_C10() {
 check_C15() {
   build_inpkg c15_pinlifetime_verif_test.go
   inpkg_test inpkg TestVerifC15
+  build_proxy
+  wire_part wire pintime
 }
 
 check_C19() {
